@@ -27,4 +27,4 @@ def _nontrivial(c):
 
 
 mach.install(globals(), "C01", ("EvStep", "EvGot", "EvDone"), ("C01:",), PROFILES, n_quick=300, n_thorough=5000,
-             nontrivial=_nontrivial)
+             nontrivial=_nontrivial, level="proof")
